@@ -7,7 +7,7 @@ from rules import tf, simdsign
 
 def run(ctx):
     fx = ctx.facts("default")
-    fixtures.run(ctx, ['tf', 'simdsign', 'lanes', 'padmask'])
+    fixtures.run(ctx, ['tf', 'simdsign', 'lanes', 'padmask', 'identity'])
     tf.run(ctx, fx)
     ctx.floor("R-TF.tf_fns", 100)
     ctx.floor("R-TF.sites", 100)
@@ -20,6 +20,8 @@ def run(ctx):
     # kernels over a zero-padded scratch array restrict the movemask to the lanes that were filled
     simdsign.padded_mask(ctx, fx)
     ctx.floor("R-PADMASK.sites", 2)
+    # "same start address" fast paths of comparison kernels also compare the lengths (none on the pinned tree)
+    simdsign.ptr_identity_fast_path(ctx, fx)
     return dict(
         level_note="decides the dispatch clause of C14 (feature-gated kernels are entered only under an implying "
                    "runtime check; a portable path exists) and one necessary condition of the compare clause (no unbiased "
